@@ -292,8 +292,14 @@ fn classify(op: Op, cfg: &Cfg, exp: &Snap, got: &Snap, exp_res: &str, got_res: &
     None
 }
 
+/// C17 "initial_capacity has no observable effect": the bounded caches of capacity 3 and 6 are built WITH a capacity hint; the
+/// specification knows nothing about it. When a finding shows up in such a configuration the history is run again with the hint
+/// switched off: no finding then means the hint itself is observable, which is reported as a C17 finding of its own.
+static HINT_OFF: std::sync::atomic::AtomicBool = std::sync::atomic::AtomicBool::new(false);
+fn has_hint(cfg: &Cfg) -> bool { cfg.cap == Some(3) || cfg.cap == Some(6) }
 fn build(cfg: Cfg) -> (C, std::sync::Arc<crate::common::time::clock::Mock>) {
     let mut b = Cache::builder();
+    if has_hint(&cfg) && !HINT_OFF.load(std::sync::atomic::Ordering::Relaxed) { b = b.initial_capacity(40); }
     if let Some(c) = cfg.cap { b = b.max_capacity(c); }
     if let Some(d) = cfg.ttl { b = b.time_to_live(Duration::from_nanos(d)); }
     if let Some(d) = cfg.tti { b = b.time_to_idle(Duration::from_nanos(d)); }
@@ -639,6 +645,18 @@ fn verif_rt_sync() {
     let mut seen: Vec<(&'static str, u8, bool)> = Vec::new();
     let mut handle = |cfg: Cfg, seq: &[Op], regime: u8, findings: &mut i32, seen: &mut Vec<(&'static str, u8, bool)>| {
         let r = if regime == 0 { run_history_a(cfg, seq) } else if regime == 3 { run_history_c(cfg, seq) } else { run_history_b2(cfg, seq, regime == 2) };
+        if let Some((at, f)) = &r {
+            if has_hint(&cfg) && !f.what.contains("pattern=KF-") && !seen.contains(&("C17", regime, false)) {
+                HINT_OFF.store(true, std::sync::atomic::Ordering::Relaxed);
+                let r2 = if regime == 0 { run_history_a(cfg, seq) } else if regime == 3 { run_history_c(cfg, seq) } else { run_history_b2(cfg, seq, regime == 2) };
+                HINT_OFF.store(false, std::sync::atomic::Ordering::Relaxed);
+                if r2.is_none() {
+                    seen.push(("C17", regime, false));
+                    println!("RT-FAIL tags=C17 what=[sync cache] initial_capacity(40) has an observable effect: with the hint: {}; the same history on a cache built without the hint shows no finding cfg={:?} failing_op_index={} history={:?}", f.what, cfg, at, &seq[..(*at + 1).min(seq.len())]);
+                    *findings += 1;
+                }
+            }
+        }
         if let Some((at, f)) = r {
             // one report per (tags, regime, known-family-or-not): a finding of the known family never hides another one
             let kf = f.what.contains("pattern=KF-");
